@@ -30,7 +30,7 @@ NEEDED_FEATURES = [
     "filters", "mixed_discrete", "two_cont_choices", "two_cont_states", "stochastic",
     "stoch_multi_dep", "period_transition", "period_utility", "period_filter",
     "period_constraint", "leave_above", "leave_below", "log_grid", "aux_params",
-    "constraint_params", "poison", "excluded_states", "two_stochastic",
+    "constraint_params", "poison", "excluded_states", "two_stochastic", "horizon_ge_11",
 ]
 
 
@@ -42,6 +42,12 @@ def plan(tier, seed):
         cases.append({"kind": "generic", "index": i, "seed": [seed, 1, i], "cfg": cfg,
                       "jit_false": i % 3 == 0, "checkify": (i % 4 == 1) if tier == "thorough" else (i % 8 == 5),
                       "env": {"VERIF_X64": "1"}})
+    # long horizons (>= 11 periods) on tiny models: list order / indexing beyond one digit
+    for i in range(6 if tier == "quick" else 60):
+        cases.append({"kind": "generic", "index": i, "seed": [seed, 4, i], "cfg": "quick", "long_horizon": True,
+                      "cfg_over": {"min_T": 11, "max_T": 13, "max_cells": 600, "max_states": 2, "max_choices": 2, "max_cont_state_pts": 4, "max_cont_choice_pts": 4},
+                      "force": {"period_utility": True, "two_stochastic": False, "two_cont_states": False, "two_cont_choices": False},
+                      "jit_false": False, "env": {"VERIF_X64": "1"}})
     m = 12 if tier == "quick" else 120
     for i in range(m):
         cases.append({"kind": "no_choice_last", "index": i, "seed": [seed, 2, i], "cfg": cfg,
@@ -263,6 +269,7 @@ def run_case(case):
     res["features"] = {k: bool(v) for k, v in realised.items()}
     res["features"]["kind_" + case["kind"]] = True
     res["features"]["x64_off"] = not bootstrap.X64
+    res["features"]["horizon_ge_11"] = ref.T >= 11
     res["sig"] = f"{sig}#{pipeline.param_hash(p1)}"
     res["nontrivial"] = bool(nontrivial)
     if res["violations"]:
